@@ -48,6 +48,10 @@ pub enum StOp {
   /// The task identified by (kt, src): reads key `src` through the context with the equality checker and writes key
   /// `10 + src` = value + 1 (or removes it when absent) through the context with a writer. Incremental: pie may reuse it.
   CopyTask { kt: u8, src: u8, dst: u8 },
+  /// Fault: a task (identity (kt, key)) writes key `20 + key` through the context and panics: `when` = 0 inside the write
+  /// function before storing, 1 inside it after storing `val`, 2 after the write returned. The panic is caught and the
+  /// same Pie is used further: everything stored so far (and the completed part of the write) must still be there.
+  CrashTask { kt: u8, key: u8, val: i64, when: u8 },
 }
 
 #[derive(Clone, Debug, Serialize, Deserialize)]
@@ -99,6 +103,26 @@ impl Task for Copy {
         n
       }
     }
+  }
+}
+
+pub const CRASH_TASK_MSG: &str = "SIM-E4-CRASH";
+
+#[derive(Clone, Debug)]
+struct Crasher { kt: u8, key: u8, val: i64, when: u8 }
+impl PartialEq for Crasher { fn eq(&self, o: &Self) -> bool { self.kt == o.kt && self.key == o.key } }
+impl Eq for Crasher {}
+impl std::hash::Hash for Crasher { fn hash<H: std::hash::Hasher>(&self, h: &mut H) { self.kt.hash(h); self.key.hash(h); } }
+impl Task for Crasher {
+  type Output = ();
+  fn execute<C: Context>(&self, c: &mut C) {
+    let (when, val) = (self.when, self.val);
+    match self.kt {
+      0 => { c.write(&KA(self.key), MapEqualsChecker, |w| { if when == 0 { panic!("{}", CRASH_TASK_MSG); } w.insert(val); if when == 1 { panic!("{}", CRASH_TASK_MSG); } Ok(()) }).unwrap(); }
+      1 => { c.write(&KB(self.key), MapEqualsChecker, |w| { if when == 0 { panic!("{}", CRASH_TASK_MSG); } w.insert(val); if when == 1 { panic!("{}", CRASH_TASK_MSG); } Ok(()) }).unwrap(); }
+      _ => { c.write(&KC(self.key), MapEqualsChecker, |w| { if when == 0 { panic!("{}", CRASH_TASK_MSG); } w.insert(sval(val)); if when == 1 { panic!("{}", CRASH_TASK_MSG); } Ok(()) }).unwrap(); }
+    }
+    panic!("{}", CRASH_TASK_MSG);
   }
 }
 
@@ -255,7 +279,7 @@ impl Engine for StateEngine {
         5..=6 => StOp::Writer { kt, key, how: rng.below(6) as u8, val },
         7 => StOp::Stamp { kt, key, slot: rng.below(4) as u8 },
         8..=9 => StOp::Check { slot: rng.below(4) as u8 },
-        10 => StOp::CopyTask { kt, src: key % 10, dst: 0 },
+        10 => if rng.chance(35) { StOp::CrashTask { kt, key: key % 10, val, when: rng.below(3) as u8 } } else { StOp::CopyTask { kt, src: key % 10, dst: 0 } },
         _ => StOp::Raw { rt: rng.below(NRT as u64) as u8, how: rng.below(8) as u8, st: *rng.pick(&[StKind::Map, StKind::I32, StKind::Str]), val },
       };
       ops.push(op);
@@ -377,6 +401,20 @@ impl Engine for StateEngine {
             if got != exp { return Some(format!("task reading key {src} of key type {kt} through the context saw {:?}, model {:?}", got, exp)); }
             None
           }
+          StOp::CrashTask { kt, key, val, when } => {
+            let task = Crasher { kt, key: 20 + key, val, when };
+            let r = catch(|| pie.new_session().require(&task));
+            // Opening the writer makes sure the map exists; the store happened unless the panic came first.
+            ensure_map(&mut model, kt as usize);
+            if when >= 1 {
+              match &mut model.st[kt as usize] { Some(MState::MapI(x)) => { x.insert(20 + key, val); } Some(MState::MapS(x)) => { x.insert(20 + key, sval(val)); } _ => {} }
+            }
+            match r {
+              Err(p) if p.msg.starts_with(CRASH_TASK_MSG) => None,
+              Err(p) => Some(format!("the crashing task aborted with something else than its own panic: {}", p.short())),
+              Ok(()) => Some("the crashing task returned".to_string()),
+            }
+          }
         }
       });
       match r {
@@ -394,12 +432,12 @@ impl Engine for StateEngine {
       let obs = observe(&pie);
       if obs != model.st {
         let which = (0..NRT).find(|i| obs[*i] != model.st[*i]).unwrap_or(0);
-        let touched = match op { StOp::Raw { rt, .. } => *rt as usize, StOp::DirectInsert { kt, .. } | StOp::DirectRemove { kt, .. } | StOp::Read { kt, .. } | StOp::Writer { kt, .. } | StOp::Stamp { kt, .. } | StOp::CopyTask { kt, .. } => *kt as usize, StOp::Check { slot } => slots.get(slot).map(|s| s.0 as usize).unwrap_or(0) };
+        let touched = match op { StOp::Raw { rt, .. } => *rt as usize, StOp::DirectInsert { kt, .. } | StOp::DirectRemove { kt, .. } | StOp::Read { kt, .. } | StOp::Writer { kt, .. } | StOp::Stamp { kt, .. } | StOp::CopyTask { kt, .. } | StOp::CrashTask { kt, .. } => *kt as usize, StOp::Check { slot } => slots.get(slot).map(|s| s.0 as usize).unwrap_or(0) };
         vs.push(Violation::new(&["C14"], if which == touched { "state-content" } else { "state-isolation" }, step, format!("after {:?} the state of resource type {which} is {:?}, model {:?}", op, obs[which], model.st[which])));
         break;
       }
       if model.st.iter().filter(|s| s.is_some()).count() >= 3 { cross = true; }
-      stats.hit(match op { StOp::Raw { .. } => "op_raw", StOp::CopyTask { .. } => "op_task", StOp::Check { .. } => "op_check", StOp::Stamp { .. } => "op_stamp", StOp::Writer { .. } => "op_writer", StOp::Read { .. } => "op_read", _ => "op_direct" });
+      stats.hit(match op { StOp::Raw { .. } => "op_raw", StOp::CopyTask { .. } => "op_task", StOp::CrashTask { .. } => "fault_task_panic_in_write", StOp::Check { .. } => "op_check", StOp::Stamp { .. } => "op_stamp", StOp::Writer { .. } => "op_writer", StOp::Read { .. } => "op_read", _ => "op_direct" });
     }
     out.nontrivial = cross && scn.ops.iter().any(|o| matches!(o, StOp::Check { .. }));
     out.fingerprint = fp;
